@@ -330,6 +330,10 @@ def a8_shared(ctx):
     from .C07 import n1_provenance
     d2_small_date(ctx)
     n1_provenance(ctx)
+    # C07 N2: every printer hands format_number the configured separators - the ones the readers normalise with (C08 R3);
+    # a printer that takes them from anywhere else prints numbers the reader does not read back
+    from .C07 import n2_wiring
+    n2_wiring(ctx)
 
 
 RULES = [('D2', a8_shared), ('A1', a1_durations), ('A2', a2_dates), ('A3', a3_times), ('A4', a4_numbers), ('A5', a5_money), ('A6', a6_units), ('A7', a7_based)]
